@@ -164,3 +164,12 @@ have been split into their own separate Python packages. These are:
 """
 
 from vc2_conformance.version import __version__
+
+# Python 3.11+ limits the length of int <-> str conversions (4300 digits by
+# default). Values in a VC-2 bitstream (e.g. exp-golomb coded integers) are
+# unbounded and must remain printable in conformance error explanations and in
+# the bitstream viewer's output, so remove the limit.
+import sys
+
+if hasattr(sys, "set_int_max_str_digits"):
+    sys.set_int_max_str_digits(0)
